@@ -485,3 +485,7 @@ func validProofFor(addr, message string) string {
 	sym.Assume(cosmosSigOK(addr, message, s))
 	return s
 }
+
+// ModuleRegistered / Blocked: facts of the application wiring (maccPerms, blocked addresses of app.go).
+func (w *World) ModuleRegistered(name string) bool { return sym.ModuleRegistered(name) }
+func (w *World) Blocked(addr string) bool         { return sym.BlockedAddr(addr) }
